@@ -2,5 +2,5 @@ INIT Init
 NEXT Next
 INVARIANT Inv
 CONSTANTS
- Classes = {64}
+ Classes = {32, 64}
 CHECK_DEADLOCK FALSE
